@@ -153,7 +153,11 @@ Ctx == [
   \* own ticking (opn2_play) is what meets the notes afterwards; and 100 chips / 128 hits
   drums8s |-> << E("openBankData", [a |-> "b1"]), E("setNumChips", [n |-> 8]), E("openData", [a |-> "s2"]), E("setLoopEnabled", [v |-> 1]),
                  E("noteBurst", [ch |-> 9, k |-> 27, cnt |-> 49, v |-> 127]), E("panic", [nd |-> 0]) >>,
-  drums100 |-> << E("openBankData", [a |-> "b1"]), E("setNumChips", [n |-> 100]), E("noteBurst", [ch |-> 9, k |-> 0, cnt |-> 128, v |-> 1]) >> ]
+  drums100 |-> << E("openBankData", [a |-> "b1"]), E("setNumChips", [n |-> 100]), E("noteBurst", [ch |-> 9, k |-> 0, cnt |-> 128, v |-> 1]) >>,
+  \* more simultaneous notes of one instrument than chip channels with the automatic arpeggio on (notes SHARE chip channels), all of
+  \* them captured by sostenuto; the suffix releases some keys (their chip-channel users stay, the notes are gone) and lets time pass
+  arpsost |-> << E("openBankData", [a |-> "b1"]), E("setNumChips", [n |-> 1]), E("setAutoArpeggio", [v |-> 1]),
+                 E("noteBurst", [ch |-> 0, k |-> 60, cnt |-> 8, v |-> 100]), Cc(0, 66, 127) >> ]
 \* calls appended to every history of a context (render calls are left out while the VGM dumper is selected)
 Sfx == [c \in DOMAIN Ctx |->
          CASE c = "drums"  -> << E("generate", [n |-> 3072]), E("tickEvents", [s |-> "one", g |-> "small"]) >>
@@ -161,10 +165,13 @@ Sfx == [c \in DOMAIN Ctx |->
            [] c = "drums8s" -> << E("play", [n |-> 4096]), E("tickEvents", [s |-> "small", g |-> "small"]), E("generate", [n |-> 1024]) >>
            [] c = "drums100" -> << E("tickEvents", [s |-> "small", g |-> "tiny"]), E("tickEvents", [s |-> "small", g |-> "small"]),
                                    E("tickEvents", [s |-> "small", g |-> "small"]), E("generate", [n |-> 1024]) >>
+           [] c = "arpsost" -> << E("rt_noteOff", [ch |-> 0, k |-> 67]), E("rt_noteOff", [ch |-> 0, k |-> 66]), E("rt_noteOff", [ch |-> 0, k |-> 60]),
+                                  E("rt_noteOff", [ch |-> 0, k |-> 61]), E("generate", [n |-> 3072]), E("tickEvents", [s |-> "one", g |-> "small"]),
+                                  Cc(0, 66, 0), E("generate", [n |-> 1024]) >>
            [] OTHER -> << >> ]
 RECURSIVE Run(_, _)
 Run(St, evs) == IF evs = << >> THEN St ELSE Run(Spend(St, Head(evs)), Tail(evs))
-CtxNames == << "fresh", "bank", "song", "rej", "rejrew", "looprew", "locked", "lockedn", "fastloop", "note", "drums", "drumsx" >>
+CtxNames == << "fresh", "bank", "song", "rej", "rejrew", "looprew", "locked", "lockedn", "fastloop", "note", "drums", "drumsx", "arpsost" >>
             \o (IF Mode = "sweepall" THEN << "drums8s", "drums100" >> ELSE << >>)
 RECURSIVE SfxRun(_, _)
 SfxRun(St, evs) == IF evs = << >> THEN << >>
